@@ -42,8 +42,8 @@ func (p Params) Validate() error {
 		return fmt.Errorf("fee must be positive and less than 1: %s", p.Fee.String())
 	}
 
-	if !p.PoolCreationFee.IsPositive() {
-		return fmt.Errorf("poolCreationFee must be positive: %s", p.PoolCreationFee.String())
+	if err := validatePoolCreationFee(p.PoolCreationFee); err != nil {
+		return err
 	}
 
 	if !p.TaxRate.GT(math.LegacyZeroDec()) || !p.TaxRate.LT(math.LegacyOneDec()) {
@@ -75,6 +75,9 @@ func validatePoolCreationFee(i interface{}) error {
 		return fmt.Errorf("invalid parameter type: %T", i)
 	}
 
+	if err := v.Validate(); err != nil {
+		return fmt.Errorf("invalid poolCreationFee: %w", err)
+	}
 	if !v.IsPositive() {
 		return fmt.Errorf("poolCreationFee must be positive: %s", v.String())
 	}
